@@ -4,9 +4,11 @@ import PytezosModel.Props.C22
 #print axioms C22.cell_wf
 #print axioms C22.execute_atomic
 #print axioms C22.cell_eq_alias_free
+#print axioms C22.cell_protected_zero
 #print axioms C22.session_eq_filtered_from
 #print axioms C22.session_eq_filtered
 #print axioms C22.session_trace_eq_filtered_from
 #print axioms C22.session_trace_eq_filtered
 #print axioms C22.session_wf
 #print axioms C22.pinned_shape_counterexample
+#print axioms C22.items_only_counterexample
